@@ -3,14 +3,62 @@ from vlib.props import prop
 prop("C04",
      harness="c04_projectors",
      runs={
-         "quick": [dict(flavour="asan", cases=28, mode="small"), dict(flavour="rel", cases=150)],
-         "thorough": [dict(flavour="asan", cases=280, mode="small"), dict(flavour="rel", cases=4000)],
+         # mode=small / quicksize: same generator with smaller geometries so that the sanitizer build sees many configurations
+         "quick": [dict(flavour="asan", cases=280, mode="small"), dict(flavour="asan", cases=28, mode="quicksize"),
+                   dict(flavour="rel", cases=2000)],
+         "thorough": [dict(flavour="asan", cases=4000, mode="small"), dict(flavour="asan", cases=420, mode="quicksize"),
+                      dict(flavour="rel", cases=20000), dict(flavour="memcheck", cases=140, mode="small")],
      },
-     min_nontrivial={"quick": 80, "thorough": 2000},
-     min_obs={"quick": {"adjoint_checks": 1000}, "thorough": {"adjoint_checks": 30000}},
-     rule="tbd",
-     technique="runtime monitoring",
-     level_text="tbd",
-     level_note="tbd",
-     assumptions=[],
+     min_nontrivial={"quick": 1500, "thorough": 15000},
+     min_obs={"quick": {"adjoint_checks": 30000, "adjoint_checks_whole_data": 1500, "subsets_checked": 10000,
+                        "related_viewgram_groups": 10000, "sub_range_tiles": 5000, "sentinel_bins_checked": 1000000,
+                        "zeroed_bins_checked": 100000, "accumulation_checks": 1500, "fwd_raytracing_vs_matrix_bins": 100000,
+                        "cfg_raytracing_projector_unequal_xy_views_multiple_of_4": 30,
+                        "cfg_raytracing_projector_unequal_xy_views_multiple_of_4_oblique": 15,
+                        "cfg_raytracing_projector_two_planes_per_axial_pos_shifted_origin": 30,
+                        "cfg_tof": 40, "cfg_non_tof": 1000, "cfg_blocks_on_cylindrical": 40, "cfg_interpolation_matrix": 80,
+                        "cfg_max_group_size_8": 60, "cfg_cache_off": 200, "cfg_cache_all_bins": 100, "cfg_cache_basic_bins": 100,
+                        "cfg_multiple_tangential_rays": 200, "cfg_no_symmetries": 50, "cfg_axial_compression": 200},
+              "thorough": {"adjoint_checks": 400000, "subsets_checked": 150000, "related_viewgram_groups": 150000,
+                           "sentinel_bins_checked": 20000000, "fwd_raytracing_vs_matrix_bins": 2000000, "cfg_tof": 500,
+                           "cfg_blocks_on_cylindrical": 500, "cfg_interpolation_matrix": 1000, "cfg_max_group_size_8": 800}},
+     rule=("case = one generated configuration: scanner (8..40/64 detectors, 1..4/6 rings, cylindrical or blocks-on-cylindrical[span 1], "
+           "optional intrinsic tilt, TOF with odd mashing) x sampling (span odd/even/mixed, max ring difference, view mashing, tangential "
+           "and segment truncation, arc-corrected or not) x image grid (3..21/33 voxels, odd/even, nx!=ny, vx!=vy, z spacing = axial "
+           "sampling/k, shifted z origin and first plane index) x matrix (ray tracing with the 2^5 symmetry switches, 1..3 tangential rays, "
+           "cylindrical/square FOV, actual detector boundaries; or interpolation with symmetry switches, piecewise-linear, exact Jacobian) x "
+           "cache (off / basic bins / all bins) x pairing (ProjectorByBinPairUsingProjMatrixByBin, shared matrix, separate matrices).  In "
+           "each case: whole data, every subset of 4..8 sampled num_subsets values (always 1, often num_views, sometimes num_views+1), ALL "
+           "related-viewgram groups x TOF bins, random axial x tangential tilings of 4..8 groups, accumulation, and (40% of cases, inside "
+           "the on-the-fly projector's documented/asserted domain) ForwardProjectorByBinUsingRayTracing.  sub-evaluation = one "
+           "related-viewgram group (forward, back, adjoint).  non-trivial = the matrix has non-zero rows, >= 2 views and <Ax,y> != 0; "
+           "distinct = distinct configuration descriptor / distinct (case, group)"),
+     technique=("runtime monitoring: metamorphic relations (adjoint, linear, additive over subsets / symmetry groups / sub-ranges, sentinel "
+                "bins, accumulation) between float32 results of the real projectors, each with an acceptance band computed from a float64 "
+                "application of the rows of an identically configured matrix object; under ASan/UBSan/asserts, -O2 -DNDEBUG and memcheck"),
+     level_text=("thousands of generated geometry x grid x matrix x cache configurations are pushed through the real "
+                 "Forward/BackProjectorByBinUsingProjMatrixByBin (ray-tracing and interpolation matrices) with random SIGNED images and "
+                 "data: <Ax,y> and <x,A'y> accumulated in double agree within 8(n+2)eps*sum|terms| for the whole data, every subset, every "
+                 "related-viewgram group and random axial/tangential sub-ranges; A(ax+bz)=aAx+bAz and the same for A' (inputs chosen so "
+                 "that ax+bz is exact); subset / group / sub-range forward projections reproduce the whole-data projection bin for bin "
+                 "(bit-exact, counted if only within the band) while all other bins keep a sentinel (or are 0 with zero=true); subset / "
+                 "group / tile back projections add up to the whole; back projections accumulate after "
+                 "start_accumulating_in_new_target; every forward bin and back-projected voxel also equals the float64 row application; "
+                 "ForwardProjectorByBinUsingRayTracing equals forward projection through ProjMatrixByBinUsingRayTracing (default settings) "
+                 "within 2e-3 of the viewgram maximum outside geometrically screened tie bins"),
+     level_note=("trusted: the 150-line float64 reference (CSR of ProjMatrixByBin::get_proj_matrix_elems_for_one_bin of a second, cache-less "
+                 "matrix object) and the comparison code in harness/c04_projectors.cxx.  A defect shared by the matrix rows and both "
+                 "projectors is C03's subject and invisible here.  Not covered: unmatched pairs, ProjDataInfoGeneric, shifted x/y image "
+                 "origin (rejected by the matrix), OpenMP builds (C18), predefined full-size scanners"),
+     assumptions=["band: a float32 sum of n products differs from the exact sum by at most 8(n+2)*2^-23*sum|terms| (DESIGN.md §5); inner "
+                  "products are accumulated in double from the float32 projector outputs",
+                  "images/data are multiples of 1/64 in [-10,10] and the linear-combination coefficients small dyadic numbers, so the "
+                  "combined inputs are exact in float32",
+                  "the on-the-fly ray tracing projector is only exercised where its code asserts/documents support: cylindrical non-TOF "
+                  "data, no view offset, even number of views, z voxel size = ring spacing/2, first plane index 0, square odd-sized x/y "
+                  "grid, x/y voxel size >= tangential sampling, direct-plane rays through plane centres; (view, tangential position) "
+                  "pairs whose line passes within 1e-3 voxel of a grid vertex are excluded from that comparison (counted)",
+                  "arc-corrected tangential ranges are kept inside the detector ring (|s| < 0.97 R), otherwise tan(theta) is undefined",
+                  "subset membership follows the documented rule of detail::find_basic_vs_nums_in_subset (re-implemented in the harness): "
+                  "basic view/segments with view = min_view+subset_num (mod num_subsets) plus all their symmetry-related viewgrams"],
      )
